@@ -244,7 +244,9 @@ class Plane:
                                             [1, self.pixelscale[0], self.pixelscale[1]])
 
             if self.size == 1:
-                ptt_vector = np.einsum('ij,j->ij', unmasked_ptt_vector, self.mask.ravel())
+                # (a double precision vector whatever type the mask has, like
+                # the segmented branch below)
+                ptt_vector = np.einsum('ij,j->ij', unmasked_ptt_vector, np.asarray(self.mask, dtype=float).ravel())
             else:
                 # prepare empty ptt_vector
                 ptt_vector = np.empty((self.size * 3, np.prod(self.shape)))
@@ -294,7 +296,9 @@ class Plane:
 
         # the fit is over the samples inside the mask only (whatever the OPD
         # array holds elsewhere - a file's fill value - is not part of it)
-        opd_flat = np.asarray(plane.opd).ravel()
+        # (as double precision numbers: the solver takes nothing wider or
+        # narrower than single and double precision)
+        opd_flat = np.asarray(plane.opd, dtype=float).ravel()
 
         if self.size == 1:
             inside = np.flatnonzero(ptt_vector[0])
